@@ -120,16 +120,6 @@ def rule_B(run, prog):
 def rule_C(run, prog):
     rid = "C10-C"
     f = prog.func(AB + "fc_factor")
-    loops = [n for n in f.node.body if isinstance(n, ast.For)]
-    ok = len(loops) == 1 and norm(loops[0].iter) == "range(len(sta1))"
-    st = [norm(s) for s in ast.walk(f.node) if isinstance(s, ast.stmt)]
-    ok = ok and "res = 1.0" in st and "res = res * rs" in st and "return res" in st and \
-        "rs = self.FC.get(ii)[qn1, qn2]" in st and "shft = smod1.shift - smod2.shift" in st and \
-        "qn1 = inx1[kk]" in st and "qn2 = inx2[kk]" in st
-    esc = [x for x in ast.walk(loops[0]) if isinstance(x, (ast.Break, ast.Continue, ast.Return))] if loops else [1]
-    run.obligation(rid, "AggregateBase.fc_factor", ok and not esc, key="product-over-modes",
-                   message="the Franck-Condon factor must multiply one overlap <n1|D(shift difference)|n2> per mode "
-                           "over all modes", loc=f.loc())
     # the factor is a function of the two states' quantum numbers and mode shifts as they are now:
     # every value returned is the product computed by this call (or a literal), and state kept on
     # self between calls may only be keyed by values that determine the overlap
@@ -180,10 +170,72 @@ def rule_C(run, prog):
                            "change of a mode's shift or number of levels the remembered factor is returned for the "
                            "new parameters" % [("self." + a, k, "key uses " + ", ".join(i)) for a, k, i in bad],
                    loc=f.loc(bad and memo[0][3]) if bad else f.loc(), sample={"memo_stores": len(memo)})
-    ok = any(isinstance(n, ast.If) and norm(n.test) == "not len(sta1) == len(sta2)" and
-             any(isinstance(x, ast.Raise) for x in n.body) for n in f.node.body)
-    run.obligation(rid, "AggregateBase.fc_factor", ok, key="same-modes",
-                   message="states with different numbers of modes must be refused", loc=f.loc())
+    if not any(x.rule == rid and x.construct == "AggregateBase.fc_factor" for x in run.findings):
+        # finite evaluation: the factor is the product over ALL modes of the overlap
+        # <qn1_k| D(shift1_k - shift2_k) |qn2_k>, taken from the shift operator of the difference
+        import itertools
+        from .. import feval
+        from ..feval import Stub, Sym, SymArr
+        for nmodes in (0, 1, 2, 3):
+            bad = []
+            ncfg = 0
+            shift_sets = list(itertools.product((0.0, 0.5, 1.25), repeat=nmodes))[:6]
+            for sh1 in shift_sets:
+                for sh2 in shift_sets[::-1][:4]:
+                    for q1 in list(itertools.product((0, 1, 2), repeat=nmodes))[::3][:5]:
+                        for q2 in list(itertools.product((0, 1, 2), repeat=nmodes))[1::4][:4]:
+                            store = {}
+
+                            class _FC(Stub):
+                                pass
+                            fcs = _FC("fcstorage")
+                            keys = []
+                            fcs.methods = {
+                                "lookup": lambda x: x in keys,
+                                "add": lambda x, arr: (keys.append(x), store.__setitem__(x, arr))[0],
+                                "index": lambda x: keys.index(x),
+                                "get": lambda ii: store[keys[ii]],
+                            }
+                            ops = Stub("operator_factory")
+                            ops.methods = {"shift_operator": lambda x: SymArr("D(%g)" % x)}
+                            selfo = Stub("AggregateBase", FC=fcs, ops=ops)
+                            st1 = Stub("VibronicState", vsig=q1, index=None,
+                                       elstate=Stub("ElectronicState", vibmodes=[Stub("SubMode", shift=x) for x in sh1]))
+                            st2 = Stub("VibronicState", vsig=q2, index=None,
+                                       elstate=Stub("ElectronicState", vibmodes=[Stub("SubMode", shift=x) for x in sh2]))
+                            ncfg += 1
+                            try:
+                                got = feval.Evaluator().call_function(f.node, {"self": selfo, "state1": st1, "state2": st2})
+                            except feval.Unsupported as e:
+                                raise AnalysisError("fc_factor(): construct outside the finite evaluator's vocabulary: %s" % e)
+                            except feval.Raised as e:
+                                got = "raise %s" % e
+                            exp = Sym(1.0)
+                            for k in range(nmodes):
+                                exp = exp * SymArr("D(%g)" % (sh1[k] - sh2[k])).at((q1[k], q2[k]))
+                            if isinstance(got, (int, float)):
+                                got = Sym(got)
+                            if not isinstance(got, Sym) or not got.same(exp):
+                                bad.append((sh1, sh2, q1, q2, repr(got), repr(exp)))
+            run.obligation(rid, "AggregateBase.fc_factor", not bad, key="finite:modes=%d" % nmodes,
+                           message="the Franck-Condon factor must be the product over all modes of <n1|D(shift difference)|n2>; "
+                                   "deviates on %d of %d configurations, first: shifts %s / %s, quanta %s / %s gives %s, expected %s"
+                                   % ((len(bad), ncfg) + (bad[0] if bad else ("",) * 6)), loc=f.loc(),
+                           sample={"modes": nmodes, "configurations": ncfg})
+        # states with different numbers of modes are refused
+        selfo = Stub("AggregateBase", FC=Stub("fcstorage"), ops=Stub("operator_factory"))
+        st1 = Stub("VibronicState", vsig=(0,), index=None, elstate=Stub("ElectronicState", vibmodes=[Stub("SubMode", shift=0.0)]))
+        st2 = Stub("VibronicState", vsig=(0, 0), index=None,
+                   elstate=Stub("ElectronicState", vibmodes=[Stub("SubMode", shift=0.0), Stub("SubMode", shift=0.0)]))
+        try:
+            feval.Evaluator().call_function(f.node, {"self": selfo, "state1": st1, "state2": st2})
+            refused = False
+        except feval.Raised:
+            refused = True
+        except feval.Unsupported:
+            refused = False
+        run.obligation(rid, "AggregateBase.fc_factor", refused, key="same-modes",
+                       message="states with different numbers of modes must be refused", loc=f.loc())
     v = prog.func("quantarhei.builders.aggregate_states.ElectronicState.vsignatures")
     st = [norm(s) for s in ast.walk(v.node) if isinstance(s, ast.stmt)]
     ok = "vibmax.append(sm.nmax)" in st and any(isinstance(n, ast.If) and norm(n.test) == "approx is None"
@@ -194,18 +246,21 @@ def rule_C(run, prog):
     run.obligation(rid, "ElectronicState.vsignatures", ok, key="full-space",
                    message="without approximation the vibrational signatures must be ndindex over the level counts "
                            "of all modes (state count = product of the level counts)", loc=v.loc())
+    # the overlap product multiplies the electronic dipole and the resonance coupling: the finite
+    # evaluations of C03 carry the opaque factor 'fc' returned by fc_factor in their expected values
+    from . import c03
     t = prog.func(AB + "transition_dipole")
-    st = [norm(s) for s in t.node.body]
-    ok = "fcfac = self.fc_factor(state1, state2)" in st and "return eldip * fcfac" in st
-    run.obligation(rid, "AggregateBase.transition_dipole", ok, key="dipole-times-overlap",
-                   message="vibronic transition dipole must be the electronic one times the overlap product", loc=t.loc())
+    bad, npairs, _ = c03.eval_transition_dipole(prog, 3)
+    run.obligation(rid, "AggregateBase.transition_dipole", not bad, key="dipole-times-overlap",
+                   message="vibronic transition dipole must be the electronic one times the overlap product; deviates "
+                           "on %d of %d pairs of states of a trimer, first: %s" % (len(bad), npairs, bad[:1]), loc=t.loc(),
+                   sample={"pairs": npairs})
     c = prog.func(AB + "coupling")
-    st = [norm(s) for s in ast.walk(c.node) if isinstance(s, ast.stmt)]
-    n_fc = sum(1 for s in st if s == "coup = self.resonance_coupling[kk, ll] * fc")
-    ok = n_fc >= 2 and any(s.startswith("fc = self.fc_factor(") for s in st)
-    run.obligation(rid, "AggregateBase.coupling", ok, key="coupling-times-overlap",
-                   message="vibronic couplings must be the resonance coupling times the overlap product", loc=c.loc(),
-                   sample={"sites": n_fc})
+    bad, npairs, _ = c03.eval_coupling(prog, "VibronicState", 3, 2)
+    run.obligation(rid, "AggregateBase.coupling", not bad, key="coupling-times-overlap",
+                   message="vibronic couplings must be the resonance coupling times the overlap product; deviates on %d "
+                           "of %d pairs of states of a trimer, first: %s" % (len(bad), npairs, bad[:1]), loc=c.loc(),
+                   sample={"pairs": npairs})
     # shift operator evaluated in the large basis and cut
     st = [norm(s) for s in ast.walk(f.node) if isinstance(s, ast.stmt)]
     ok = "fc = self.ops.shift_operator(shft)[:20, :20]" in st
